@@ -97,8 +97,14 @@ inductive SiteClass where
 def hasMessage (g : Graph) (round : Nat) (kind : Kind) : Bool :=
   g.leaves.any fun l => l.round == round && l.kind == kind
 
+/-- some leaf of the message (round, kind) is bound -/
+def Graph.messageBound (g : Graph) (round : Nat) (kind : Kind) : Bool :=
+  g.leaves.any fun l => l.round == round && l.kind == kind && g.bound l
+
 def Graph.classify (g : Graph) (round : Nat) (kind : Kind) (path : String) : SiteClass :=
   if !hasMessage g round kind then .unknown else
+  -- a message nobody reads (a newcomer's placeholder): everything in it is the sender's free choice
+  if !g.messageBound round kind then .unboundLeaf ⟨round, kind, normPath path⟩ else
   if path == "msg" then .structural else
   match g.leafOf round kind (normPath path) with
   | some l => if g.bound l then .boundLeaf l (g.predsOn l) else .unboundLeaf l
